@@ -32,10 +32,15 @@ func loadKnown(verif string) *KnownFindings {
 	return kf
 }
 
+// open: an open finding names a clause of a function (the "~k" return-site ordinal is not part of the key).
 func (kf *KnownFindings) open(prop, obl string) *KnownFinding {
+	base := obl
+	if i := strings.LastIndex(base, "~"); i >= 0 {
+		base = base[:i]
+	}
 	for i := range kf.Findings {
 		f := &kf.Findings[i]
-		if f.Status == "open" && f.Obligation == obl && (f.Property == prop || f.Property == "") {
+		if f.Status == "open" && (f.Obligation == obl || f.Obligation == base) && (f.Property == prop || f.Property == "") {
 			return f
 		}
 	}
@@ -120,7 +125,7 @@ func report(run *checkRun, verif string, verbose, writeEv bool) int {
 		}
 		found := false
 		for _, o := range run.obls {
-			if o.Name == k.Obligation {
+			if o.Name == k.Obligation || strings.HasPrefix(o.Name, k.Obligation+"~") {
 				found = true
 				if o.ok() {
 					fmt.Printf("NOTE: known finding %s no longer reproduces (obligation discharged)\n", k.Obligation)
